@@ -193,7 +193,13 @@ pub fn gen_c09_case(g: &mut G) -> Value {
             _ => json!(["a", 7, 2.5, true]),
         };
         let ty = *g.pick(&["number", "integer", "string"]);
-        let mut v = vec![json!({"enum": lits}), json!({"type": ty})];
+        let mut v = if g.chance(1, 3) {
+            // a generic and a specific address format: the conjunction is the specific one
+            let specific = *g.pick(&["ipv4", "ipv6"]);
+            vec![json!({"type": "string", "format": specific}), json!({"type": "string", "format": "ip"})]
+        } else {
+            vec![json!({"enum": lits}), json!({"type": ty})]
+        };
         if g.chance(1, 2) {
             v.reverse();
         }
@@ -247,7 +253,7 @@ pub fn gen_c09_case(g: &mut G) -> Value {
         }
     }
     if scalar {
-        for lit in [json!(1), json!(2), json!(3.5), json!("auto"), json!(10), json!(20), json!("a"), json!(7), json!(2.5), json!(true), json!(4), json!("zz")] {
+        for lit in [json!(1), json!(2), json!(3.5), json!("auto"), json!(10), json!(20), json!("a"), json!(7), json!(2.5), json!(true), json!(4), json!("zz"), json!("127.0.0.1"), json!("::1"), json!("10.1.2.3")] {
             cands.push(lit);
         }
     }
@@ -339,6 +345,9 @@ impl Property for C09 {
                 (0..4).any(|k| m == &tuple_member(k))
                     || m == &json!({"$ref": "#/definitions/Base"})
                     || m == &json!({"type": "string"})
+                    || m == &json!({"type": "string", "format": "ip"})
+                    || m == &json!({"type": "string", "format": "ipv4"})
+                    || m == &json!({"type": "string", "format": "ipv6"})
                     || m == &json!({"type": "number"})
                     || m == &json!({"type": "integer"})
                     || (m.as_object().map(|o| o.len() == 1).unwrap_or(false) && m.get("enum").and_then(|e| e.as_array()).map(|e| !e.is_empty() && e.iter().all(|x| !x.is_object() && !x.is_array() && !x.is_null())).unwrap_or(false))
